@@ -735,6 +735,9 @@ func (bp *boundsProver) factsAt(b *ssa.BasicBlock) []lin {
 		if d == nil {
 			break
 		}
+		if os.Getenv("JAMVERIF_BOUNDSDEBUG") == "2" {
+			fmt.Fprintf(os.Stderr, "factsAt %s: cur=%d idom=%d last=%T\n", b.Parent().Name(), cur.Index, d.Index, d.Instrs[len(d.Instrs)-1])
+		}
 		if ifi, ok := d.Instrs[len(d.Instrs)-1].(*ssa.If); ok && len(d.Succs) == 2 {
 			for si, s := range d.Succs {
 				if d.Succs[0] == d.Succs[1] {
@@ -756,6 +759,39 @@ func (bp *boundsProver) condFacts(c ssa.Value, truth bool, d int) []lin {
 	}
 	if u, ok := c.(*ssa.UnOp); ok && u.Op == token.NOT {
 		return bp.condFacts(u.X, !truth, d+1)
+	}
+	// a short-circuit value: a || b is false only if both are, a && b is true only if both are. The phi merges
+	// the constant of the deciding operand with the value of the last one; every constant edge comes from a block
+	// whose own test decided, so on the outcome that needs all operands that test went the other way.
+	if p, isPhi := c.(*ssa.Phi); isPhi && isBoolT(p.Type()) {
+		var out []lin
+		okForm := true
+		for i, e := range p.Edges {
+			if k, isC := e.(*ssa.Const); isC && k.Value != nil {
+				if (k.Value.String() == "true") == truth {
+					okForm = false // the wanted outcome can also come from a deciding operand: nothing follows
+					break
+				}
+				pred := p.Block().Preds[i]
+				// the deciding block lies on every path to the operands evaluated after it, so reaching the phi over a
+				// non-constant edge means its test did not take the direct edge
+				onAll := true
+				for j, e2 := range p.Edges {
+					if _, isC2 := e2.(*ssa.Const); !isC2 && !pred.Dominates(p.Block().Preds[j]) {
+						onAll = false
+					}
+				}
+				if iff, isIf := pred.Instrs[len(pred.Instrs)-1].(*ssa.If); isIf && onAll && len(pred.Succs) == 2 && pred.Succs[0] != pred.Succs[1] {
+					out = append(out, bp.condFacts(iff.Cond, pred.Succs[0] != p.Block(), d+1)...)
+				}
+				continue
+			}
+			out = append(out, bp.condFacts(e, truth, d+1)...)
+		}
+		if okForm {
+			return out
+		}
+		return nil
 	}
 	b, ok := c.(*ssa.BinOp)
 	if !ok {
@@ -951,6 +987,13 @@ func checkBounds(fn *ssa.Function) []boundsSite {
 				if !bp.prove(g, siteFacts, 4) {
 					ok = false
 					gs = g.String()
+					if os.Getenv("JAMVERIF_BOUNDSDEBUG") != "" {
+						fmt.Fprintf(os.Stderr, "boundsdebug %s: goal %s; facts:", fn.Name(), gs)
+						for _, ff := range siteFacts {
+							fmt.Fprintf(os.Stderr, " [%s]", ff.String())
+						}
+						fmt.Fprintln(os.Stderr)
+					}
 					break
 				}
 			}
